@@ -7,6 +7,7 @@ WT=/tmp/mutcheck-wt
 LOG=/tmp/mutcheck.log
 git -C /repo worktree remove --force $WT 2>/dev/null
 git -C /repo worktree add -q --detach $WT HEAD || exit 1
+cp /repo/Cargo.lock $WT/Cargo.lock 2>/dev/null   # not tracked; some demonstrations pin versions with it
 export CARGO_TARGET_DIR=/tmp/mutcheck-target
 for id in "$@"; do
   for v in a b; do
@@ -15,14 +16,14 @@ for id in "$@"; do
     name=$id-$v
     # second and later waves are imported under other letters: WAVE_MAP="a:c,b:d"
     if [ -n "${WAVE_MAP:-}" ]; then nv=$(echo "$WAVE_MAP" | tr ',' '\n' | grep "^$v:" | cut -d: -f2); name=$id-${nv:-$v}; fi
-    git -C $WT checkout -q -- . ; git -C $WT clean -fdq
+    git -C $WT checkout -q -- . ; git -C $WT clean -fdq -e Cargo.lock
     # 1. demo passes without the change
     demo=$src/demo/demo.sh
     t0=$(date +%s)
     if [ -f $demo ]; then
       (cd $src/demo && bash ./demo.sh $WT) > /tmp/mutcheck-$name-without.log 2>&1; without=$?
     else without=99; fi
-    git -C $WT checkout -q -- . ; git -C $WT clean -fdq
+    git -C $WT checkout -q -- . ; git -C $WT clean -fdq -e Cargo.lock
     # 2. patch applies
     if ! git -C $WT apply $src/patch.diff 2>/tmp/mutcheck-$name-apply.log; then echo "$name: patch does not apply on HEAD: $(head -2 /tmp/mutcheck-$name-apply.log | tr '\n' ' ')" | tee -a $LOG; continue; fi
     # 3. suite green with the change (twice)
